@@ -36,6 +36,9 @@ import (
 
 // shapeSpec: repo-relative file, then the functions to fingerprint ("*" = every function and
 // method declared in the file; methods are named Recv.Name).  A name starting with '-' excludes.
+// A spec whose file is a directory ("testscript/") with the single name "<users:a,b,...>" stands for
+// every function of that package whose body mentions a field or key named a, b, ... (x.a, {a: ...}):
+// each of them is fingerprinted, and the list of their names is one more entry of the table.
 type shapeSpec struct {
 	file  string
 	funcs []string
@@ -96,8 +99,13 @@ var shapeGroups = map[string][]shapeSpec{
 		{"cmd/testscript/main.go", []string{"*"}},
 	},
 	"TsUpdate": { // C16
-		{"testscript/testscript.go", []string{"TestScript.applyScriptUpdates", "TestScript.run"}},
-		{"testscript/cmd.go", []string{"TestScript.cmdCmp", "TestScript.cmdCmpenv", "TestScript.doCmdCmp"}},
+		{"testscript/testscript.go", []string{"TestScript.applyScriptUpdates", "TestScript.run", "TestScript.setup", "TestScript.MkAbs", "TestScript.expand", "writeFile"}},
+		{"testscript/cmd.go", []string{"TestScript.cmdCmp", "TestScript.cmdCmpenv", "TestScript.doCmdCmp",
+			// the commands that move, copy, remove or link files: the model says they leave scriptFiles alone
+			"TestScript.cmdMv", "TestScript.cmdCp", "TestScript.cmdRm", "TestScript.cmdSymlink", "TestScript.cmdCd", "TestScript.cmdMkdir"}},
+		// every function of the package that mentions the state of C16 at all, each fingerprinted, plus
+		// the LIST of them as one entry: a new reader or writer of that state re-opens the obligation
+		{"testscript/", []string{"<users:scriptFiles,scriptUpdates,archive>"}},
 	},
 	"TsParse": { // C02: splitting, expansion, environment
 		{"testscript/testscript.go", []string{"TestScript.parse", "TestScript.expand", "TestScript.setEnv", "TestScript.Getenv", "TestScript.Setenv",
@@ -186,7 +194,67 @@ func canonical(fd *ast.FuncDecl) (string, error) {
 func emitShapes(g *gen, group string, specs []shapeSpec) {
 	type ent struct{ name, text, sum string }
 	var ents []ent
+	have := map[string]bool{}
 	for _, sp := range specs {
+		if strings.HasSuffix(sp.file, "/") {
+			dir := strings.TrimSuffix(sp.file, "/")
+			if len(sp.funcs) != 1 || !strings.HasPrefix(sp.funcs[0], "<users:") || !strings.HasSuffix(sp.funcs[0], ">") {
+				g.fail("%s: a directory spec needs the single name <users:field,...>", sp.file)
+				continue
+			}
+			sel := map[string]bool{}
+			for _, n := range strings.Split(strings.TrimSuffix(strings.TrimPrefix(sp.funcs[0], "<users:"), ">"), ",") {
+				sel[n] = true
+			}
+			var users []string
+			for _, f := range g.files(dir) {
+				fname := dir + "/" + filepath.Base(g.fset.Position(f.Pos()).Filename)
+				for _, d := range f.Decls {
+					fd, ok := d.(*ast.FuncDecl)
+					if !ok || fd.Body == nil {
+						continue
+					}
+					uses := false
+					ast.Inspect(fd.Body, func(n ast.Node) bool {
+						switch x := n.(type) {
+						case *ast.SelectorExpr:
+							if sel[x.Sel.Name] {
+								uses = true
+							}
+						case *ast.KeyValueExpr:
+							if id, ok := x.Key.(*ast.Ident); ok && sel[id.Name] {
+								uses = true
+							}
+						}
+						return !uses
+					})
+					if !uses {
+						continue
+					}
+					name := fname + ":" + declName(fd)
+					users = append(users, name)
+					if have[name] {
+						continue
+					}
+					txt, err := canonical(fd)
+					if err != nil {
+						g.fail("%s: cannot print %s: %v", fname, declName(fd), err)
+						continue
+					}
+					h := sha256.Sum256([]byte(txt))
+					ents = append(ents, ent{name, txt, hex.EncodeToString(h[:])})
+					have[name] = true
+				}
+			}
+			sort.Strings(users)
+			if len(users) == 0 {
+				g.fail("%s: no function mentions %s: the state the model describes is gone or renamed", sp.file, sp.funcs[0])
+			}
+			txt := strings.Join(users, "\n") + "\n"
+			h := sha256.Sum256([]byte(txt))
+			ents = append(ents, ent{sp.file + ":" + sp.funcs[0], txt, hex.EncodeToString(h[:])})
+			continue
+		}
 		dir, base := filepath.Dir(sp.file), filepath.Base(sp.file)
 		var file *ast.File
 		for _, f := range g.files(dir) {
@@ -226,6 +294,10 @@ func emitShapes(g *gen, group string, specs []shapeSpec) {
 				continue
 			}
 			h := sha256.Sum256([]byte(txt))
+			if have[sp.file+":"+n] {
+				continue
+			}
+			have[sp.file+":"+n] = true
 			ents = append(ents, ent{sp.file + ":" + n, txt, hex.EncodeToString(h[:])})
 		}
 		for n, found := range want {
